@@ -146,6 +146,8 @@ struct Session<K: HKey> {
     cas: Option<Cas<K>>,
     stats: Option<OrphanStats<K>>,
     txs: HashMap<u32, Transaction<'static, K>>,
+    /// slice c11p: independent handles on the same directory, by name: clones + the statistics
+    lk: std::collections::BTreeMap<String, (Vec<Cas<K>>, Option<OrphanStats<K>>)>,
 }
 
 impl<K: HKey> Session<K> {
@@ -243,6 +245,38 @@ impl<K: HKey> Session<K> {
                 format!("winners={wins} losers_already_opened={all_already}")
             }
             ["dropstats"] => { self.stats = None; "ok".into() }
+            // --- slice c11p: several independent calls of `open` on one directory
+            ["lk", "open", slot, mode] => {
+                let line: String = self.cfgline.split(' ').map(|t| {
+                    if t.starts_with("scan=") { String::new() }
+                    else if let (Some(n), true) = (t.strip_prefix("n="), *mode == "bad") { format!("n={}", n.parse::<u64>().unwrap() + 1) }
+                    else { t.to_string() }
+                }).filter(|t| !t.is_empty()).collect::<Vec<_>>().join(" ");
+                let line = format!("{line} scan={} fail=0", if *mode == "good1" { 1 } else { 0 });
+                match Cas::<K>::open_with_recover(&self.dir, config_full(&line)) {
+                    Ok((cas, stats)) => { self.lk.insert(slot.to_string(), (vec![cas], stats)); "granted".into() }
+                    Err(LibError::AlreadyOpened) => "refused".into(),
+                    Err(e) => if classify(&e) == "validation" { "failed".into() } else { format!("failed {}", classify(&e)) },
+                }
+            }
+            ["lk", "clone", slot] => match self.lk.get_mut(*slot) {
+                Some((cl, st)) => match cl.first().cloned() {
+                    Some(c) => { cl.push(c); format!("refs={}", cl.len() + st.is_some() as usize) }
+                    // only the statistics are left: they cannot be cloned
+                    None => "stats-only".into(),
+                },
+                None => "none".into(),
+            },
+            ["lk", "drop", slot, kind] => match self.lk.get_mut(*slot) {
+                Some((cl, st)) => {
+                    if (*kind == "s" && st.is_some()) || cl.is_empty() { *st = None; } else { cl.pop(); }
+                    let n = cl.len() + st.is_some() as usize;
+                    if n == 0 { self.lk.remove(*slot); }
+                    format!("refs={n}")
+                }
+                None => "none".into(),
+            },
+            ["lk", "live"] => self.lk.keys().cloned().collect::<Vec<_>>().join(","),
             ["put", k, chunks] => {
                 let cas = cas!();
                 let mut tx = match cas.put(key(k)) { Ok(t) => t, Err(e) => return format!("err {}", classify(&e)) };
@@ -424,7 +458,7 @@ impl<K: HKey> Session<K> {
 }
 
 fn run_session<K: HKey>(dir: PathBuf, cfgline: String, fsio: &Fsio, lines: &mut dyn Iterator<Item = String>, out: &mut dyn Write) -> Option<String> {
-    let mut s: Session<K> = Session { dir, cfgline, cas: None, stats: None, txs: HashMap::new() };
+    let mut s: Session<K> = Session { dir, cfgline, cas: None, stats: None, txs: HashMap::new(), lk: Default::default() };
     let mut armed: Option<&'static str> = None;
     while let Some(line) = lines.next() {
         if line.starts_with("cfg ") || line.starts_with("dir ") {
